@@ -365,6 +365,10 @@ type Network struct {
 	leaving  map[int]*ItxRecord
 	joinDirect func(target string, args *bnet.JoinRequest, resp *bnet.JoinResponse) error
 	inHook  bool
+	// PinnedSilent nodes stay silent across schedule phases
+	PinnedSilent map[int]bool
+	lastActor *SimNode
+	lastActorChecked bool
 	puppets map[int]*Puppet
 	// AfterStepHook, if set, runs after every step before the monitors
 	AfterStepHook func(nw *Network)
@@ -598,6 +602,7 @@ func (nw *Network) Gossip(a *SimNode, b *peers.Peer, f Fault, syncLimit int) err
 	nw.lastEagerFailed = false
 	if nw.CheckSuspendAfterGossip {
 		a.Node.VerifCheckSuspend()
+		nw.lastActor, nw.lastActorChecked = a, true
 	}
 	nw.afterStep()
 	return err
